@@ -30,6 +30,8 @@ def case_tokens(case, ops, want_snaps=True):
     for (p, s, k) in case.get("edges", []):
         ins[s].append((p, k))
         outs[p].append((s, k))
+    for (p, s, k) in case.get("edges_in", []):
+        ins[s].append((p, k))
     for i, t in enumerate(T):
         out += [t["name"]] + q2(t["work"]) + q2(t.get("progress", "0")) + q2(t.get("rate", "1"))
         out += [int(bool(t.get("auto"))), int(bool(t.get("need_fac"))), -1 if t.get("comp") is None else t["comp"]]
@@ -66,7 +68,7 @@ def case_tokens(case, ops, want_snaps=True):
         gi += n
     for ci, c in enumerate(comps):
         parents = [j for j, d in enumerate(comps) if ci in d.get("children", [])]
-        tasks = [i for i, t in enumerate(T) if t.get("comp") == ci]
+        tasks = [i for i, t in enumerate(T) if t.get("comp") == ci] + list(c.get("extra_tasks", []))
         out += q2(c.get("size", "1")) + [len(c.get("children", []))] + list(c.get("children", []))
         out += [len(parents)] + parents + [len(tasks)] + tasks
     out.append(len(ops))
